@@ -117,7 +117,8 @@ pub(crate) fn triangle_triangle_intersection(
         Some(TriangleTriangleIntersection::Segment { a, b })
     } else {
         let unit_normal2 = normal2.normalize();
-        if (tri1.a - tri2.a).dot(&unit_normal2) < EPS {
+        // The triangles are parallel: they can only intersect if they are coplanar.
+        if (tri1.a - tri2.a).dot(&unit_normal2).abs() < EPS {
             let basis = unit_normal2.orthonormal_basis();
             let proj = |vect: Vector<Real>| Point2::new(vect.dot(&basis[0]), vect.dot(&basis[1]));
 
